@@ -58,7 +58,11 @@ void Exec::op_solve(Client &c) {
 	world.cur_model = &o->m;
 	std::string life_before = o->life;
 	if (how == "exact") QSexact_set_precision(cur_precision);   // the start precision is a per-call knob of the plan, not a leftover of earlier solves
+	int it_before = 0, it_after = 0, it_limit = 0; mpq_QSget_itcnt(o->p, 0, 0, 0, 0, &it_before); mpq_QSget_param(o->p, QS_PARAM_SIMPLEX_MAX_ITERATIONS, &it_limit);
 	SolveOut so = raw_solve(o->p, how, algo, wantx, wanty, warm, wantb);
+	mpq_QSget_itcnt(o->p, 0, 0, 0, 0, &it_after);
+	// ITER_LIMIT although the simplex made far fewer pivots than the limit allows: it gave up (restart cap, "excess infeasibility")
+	std::string nd_suffix = (how != "exact" && so.rv == 0 && so.status == QS_LP_ITER_LIMIT && it_after - it_before < it_limit / 2) ? ":gave-up-early" : "";
 	world.cur_model = 0; world.limit_at_read = -1; world.cancel_at = -1;
 	if (world.ladder_cut_in_op) { interrupted = true; probe("ladder.cut"); }   // the top rungs ran out of simulated time: judged like any other limit
 	if (iter_set) mpq_QSset_param(o->p, QS_PARAM_SIMPLEX_MAX_ITERATIONS, saved_iter);
@@ -99,7 +103,8 @@ void Exec::op_solve(Client &c) {
 	// never gets to a definitive status does not give "the same" status as the others)
 	if (how != "exact" && !interrupted && o->limits_default && o->m.well_formed() && o->m.moderate() && !empty_lp && (so.rv != 0 || !definitive(so.status))) {
 		const RefResult &t = truth(o->m);
-		if (t.status && t.err.empty()) violate("C04", "plain:non-definitive:" + how + ":" + status_name(so.status) + strf(":rv%d", so.rv != 0) + ":truth-" + status_name(t.status), strf("%s simplex with default limits and no interruption returned rv=%d status %s; the LP is %s [pp%d dp%d sc%d warm%d %s]", how.c_str(), so.rv, status_name(so.status).c_str(), status_name(t.status).c_str(),
+		if (!(t.status && t.err.empty()) && so.rv == 0) { Outcome oc; oc.how = how; oc.config = strf("%s:pp%d:dp%d:sc%d:w%d", how.c_str(), o->iparam.count(QS_PARAM_PRIMAL_PRICING) ? o->iparam[QS_PARAM_PRIMAL_PRICING] : 0, o->iparam.count(QS_PARAM_DUAL_PRICING) ? o->iparam[QS_PARAM_DUAL_PRICING] : 0, o->iparam.count(QS_PARAM_SIMPLEX_SCALING) ? o->iparam[QS_PARAM_SIMPLEX_SCALING] : -1, warm ? 1 : 0); oc.status = so.status; oc.step = step; oc.note = nd_suffix; stuck[o->m.canon()].push_back(oc); }
+		if (t.status && t.err.empty()) violate("C04", "plain:non-definitive:" + how + ":" + status_name(so.status) + nd_suffix + strf(":rv%d", so.rv != 0) + ":truth-" + status_name(t.status), strf("%s simplex with default limits and no interruption returned rv=%d status %s; the LP is %s [pp%d dp%d sc%d warm%d %s]", how.c_str(), so.rv, status_name(so.status).c_str(), status_name(t.status).c_str(),
 			o->iparam.count(QS_PARAM_PRIMAL_PRICING) ? o->iparam[QS_PARAM_PRIMAL_PRICING] : 0, o->iparam.count(QS_PARAM_DUAL_PRICING) ? o->iparam[QS_PARAM_DUAL_PRICING] : 0, o->iparam.count(QS_PARAM_SIMPLEX_SCALING) ? o->iparam[QS_PARAM_SIMPLEX_SCALING] : -1, warm ? 1 : 0, life_before.c_str()));
 	}
 	// truth on small LPs (C03 for the exact driver under default limits, C04 for every other way of driving)
@@ -205,6 +210,7 @@ StoredBasis make_basis_pattern(const LP &m, long pat) {
 	for (size_t j = 0; j < n; j++) { const MCol &c = m.cols[j]; bool up_first = ((pat >> (j % 20)) & 1) != 0;
 		if (c.lo.fin() && c.up.fin()) b.cstat[j] = up_first ? '2' : '0'; else if (c.lo.fin()) b.cstat[j] = '0'; else if (c.up.fin()) b.cstat[j] = '2'; else b.cstat[j] = '3'; }
 	for (size_t i = 0; i < mr; i++) b.rstat[i] = (m.rows[i].sense == 'R' && ((pat >> (i % 13)) & 1)) ? '2' : '0';
+	if (pat == -1) { for (size_t j = 0; j < n; j++) if (b.cstat[j] == '2' && m.cols[j].lo.fin()) b.cstat[j] = '0'; for (size_t i = 0; i < mr; i++) b.rstat[i] = '1'; return b; }   // the all-slack basis
 	uint64_t s = (uint64_t)pat * 2654435761u + 12345; size_t need = mr, tot = n + mr; std::vector<int> order(tot); for (size_t k = 0; k < tot; k++) order[k] = (int)k;
 	for (size_t k = tot; k > 1; k--) { s = Rng::mix(s); std::swap(order[k - 1], order[s % k]); }
 	// bias: with probability ~1/2 start from the slack basis and swap a few
